@@ -27,6 +27,7 @@ Proof.
   - eauto.
   - eauto.
   - eauto.
+  - eauto.
   - eapply Hupd; eauto. intros r Hr. congruence.
   - eapply Hupd; eauto. intros r Hr. congruence.
 Qed.
@@ -73,6 +74,7 @@ Proof.
     + intros E W R. inversion E; subst. discriminate.
     + intros E W R. pose proof (HE _ _ E W R) as T. rewrite tget_tdel.
       destruct (N.eqb_spec (p_id pg0) j); [|exact T]. congruence.
+  - apply HE.
   - apply HE.
   - apply HE.
   - apply HE.
@@ -155,6 +157,7 @@ Proof.
     destruct (N.eqb_spec j i); [|rewrite orb_false_r; exact Hr].
     rewrite orb_true_r. destruct b; [exact Hr|]. exfalso.
     pose proof (HE _ _ Hp Hw Hr) as T. subst j. rewrite Hid in T. congruence.
+  - eauto 6.
   - eauto 6.
   - eauto 6.
   - destruct (Nat.eqb_spec pp p).
